@@ -1611,12 +1611,179 @@ func checkDecodePanics(r *Reporter, p *Prog) {
 // ---------------------------------------------------------------------------------------------
 // C03
 
+// checkBoundsBeforeSuccess: a sequence reader/writer that validates element counts
+// (ArrayRules.CheckBounds) does so on EVERY path that ends without an error in validation mode: a
+// path from the entry to an exit that avoids the bounds check must cross an edge on which
+// validation is known to be off or an error is known to have occurred. An early return placed in
+// front of the check (the empty sequence, say) accepts input the rules forbid - and the value it
+// yields is refused by the encoder.
+func checkBoundsBeforeSuccess(r *Reporter, p *Prog) {
+	const rule = "canonical/bounds-before-success"
+	pk := p.Pkg(pkgSer)
+	if pk == nil {
+		r.Unresolved(rule, pkgSer, "package not loaded")
+		return
+	}
+	info := pk.TypesInfo
+	isCheck := func(n ast.Node) bool {
+		c, ok := n.(*ast.CallExpr)
+		if !ok {
+			return false
+		}
+		se, ok := ast.Unparen(c.Fun).(*ast.SelectorExpr)
+		return ok && se.Sel.Name == "CheckBounds" && len(c.Args) == 1
+	}
+	n := 0
+	for _, fd := range p.AllFuncDecls(pkgSer) {
+		if fd.Body == nil || !fd.Name.IsExported() || strings.HasSuffix(p.Fset.Position(fd.Pos()).Filename, "_test.go") {
+			continue
+		}
+		fkey := funcKey(pkgSer, fd)
+		f := newFuncCFG(p, info, fd.Body, fkey)
+		if len(f.Find(isCheck)) == 0 {
+			continue
+		}
+		n++
+		allowed := map[Edge]bool{}
+		f.forEachEdgeFact(func(e Edge, b *cfg.Block, ft fact) {
+			if cl, isCall := ast.Unparen(ft.Atom).(*ast.CallExpr); isCall && !ft.Pol && len(cl.Args) == 1 {
+				if se, isSel := ast.Unparen(cl.Fun).(*ast.SelectorExpr); isSel && se.Sel.Name == "HasMode" && strings.HasSuffix(rawKey(cl.Args[0]), "PerformValidation") {
+					allowed[e] = true // validation is off
+				}
+			}
+			if x, nonNilOnTrue, isTest := nilTest(info, ft.Atom); isTest && nonNilOnTrue == ft.Pol {
+				if t := info.TypeOf(x); t != nil && types.Identical(t, errorType) {
+					allowed[e] = true // an error occurred
+				}
+			}
+		})
+		if w, found := f.reach(f.entry(), &searchOpts{AvoidNode: isCheck, AvoidEdge: func(e Edge) bool { return allowed[e] }}, func(pt Point, atExit bool) bool { return atExit }); found {
+			r.Fail(rule, fkey, p.posStr(fd.Pos()), "a path ends without an error, with validation on, and without the element count having been checked against the array bounds (CheckBounds): a count the rules forbid - e.g. an empty sequence below the minimum - is accepted", w...)
+		} else {
+			r.Pass(rule, fkey, p.posStr(fd.Pos()), "every exit that skips CheckBounds is behind a validation-off or an error edge")
+		}
+	}
+	if n < 2 {
+		r.Fail(rule, pkgSer, "-", fmt.Sprintf("expected the sequence writer and reader that check array bounds, found %d (vacuous)", n))
+	}
+}
+
+// checkStickyErrorSurfaced: serializer.Deserializer records the first error and turns every later
+// read into a no-op; the error only reaches the caller through Done(). A decoding function of serix
+// that creates a Deserializer must therefore pass its Done() on every path that ends without an
+// error of its own - otherwise a mismatching type prefix, a short read or a failed validation is
+// silently dropped and non-canonical input is accepted.
+func checkStickyErrorSurfaced(r *Reporter, p *Prog) {
+	const rule = "err/sticky-deserializer-done"
+	pk := p.Pkg(pkgSerix)
+	if pk == nil {
+		r.Unresolved(rule, pkgSerix, "package not loaded")
+		return
+	}
+	info := pk.TypesInfo
+	n := 0
+	for _, fd := range p.AllFuncDecls(pkgSerix) {
+		if fd.Body == nil || strings.HasSuffix(p.Fset.Position(fd.Pos()).Filename, "_test.go") {
+			continue
+		}
+		// only functions that report an error themselves
+		sig, _ := info.Defs[fd.Name].Type().(*types.Signature)
+		if sig == nil || sig.Results().Len() == 0 || !types.Identical(sig.Results().At(sig.Results().Len()-1).Type(), errorType) {
+			continue
+		}
+		fkey := funcKey(pkgSerix, fd)
+		var f *FuncCFG
+		inspectNoLit(fd.Body, func(nd ast.Node) bool {
+			as, ok := nd.(*ast.AssignStmt)
+			if !ok || len(as.Lhs) != 1 || len(as.Rhs) != 1 {
+				return true
+			}
+			c, ok := ast.Unparen(as.Rhs[0]).(*ast.CallExpr)
+			if !ok || !strings.HasSuffix(rawKey(c.Fun), "serializer.NewDeserializer") {
+				return true
+			}
+			v := objOfIdent(info, as.Lhs[0])
+			if v == nil {
+				return true
+			}
+			if f == nil {
+				f = newFuncCFG(p, info, fd.Body, fkey)
+			}
+			pt, found := f.PointOf(as)
+			if !found {
+				return true
+			}
+			n++
+			key := fmt.Sprintf("%s in %s", v.Name(), fkey)
+			isDone := func(m ast.Node) bool {
+				dc, ok := m.(*ast.CallExpr)
+				if !ok {
+					return false
+				}
+				se, ok := ast.Unparen(dc.Fun).(*ast.SelectorExpr)
+				if !ok || se.Sel.Name != "Done" {
+					return false
+				}
+				if objOfIdent(info, se.X) == v {
+					return true
+				}
+				dpt, okp := f.PointOf(dc)
+				return okp && f.IsVar(se.X, dpt, v)
+			}
+			// uses that can leave a sticky error behind: a chaining method (it returns the deserializer
+			// itself, the error stays inside), or the deserializer handed to another function
+			_ = pt
+			var w []string
+			bad := false
+			for _, up := range f.Find(func(m ast.Node) bool {
+				uc, ok := m.(*ast.CallExpr)
+				if !ok || isDone(uc) {
+					return false
+				}
+				if se, isSel := ast.Unparen(uc.Fun).(*ast.SelectorExpr); isSel && objOfIdent(info, se.X) == v {
+					if t := info.TypeOf(uc); t != nil && strings.HasSuffix(typeName(t), "serializer.Deserializer") {
+						return true
+					}
+					return false
+				}
+				for _, a := range uc.Args {
+					if objOfIdent(info, a) == v {
+						return true
+					}
+				}
+				return false
+			}) {
+				if ww, found := f.reach(Point{up.B, up.I + 1}, &searchOpts{AvoidNode: isDone, AvoidRet: func(rs *ast.ReturnStmt, val func(ast.Expr) int8) bool {
+					return len(rs.Results) > 0 && val(rs.Results[len(rs.Results)-1]) > 0 // a failure return of its own
+				}}, func(q Point, atExit bool) bool { return atExit }); found && !bad {
+					// the use itself may be `return d.Read...().Done()`: the node contains Done
+					if containsMatch(f.nodeAt(up), isDone) {
+						continue
+					}
+					w, bad = ww, true
+				}
+			}
+			if bad {
+				r.Fail(rule, key, p.posStr(as.Pos()), "a path returns without an error of its own and without Done() of the deserializer it created: an error recorded by an earlier read or prefix check (sticky) is dropped and the input is accepted", w...)
+			} else {
+				r.Pass(rule, key, p.posStr(as.Pos()), "every non-failing exit passes Done()")
+			}
+			return true
+		})
+	}
+	if n < 3 {
+		r.Fail(rule, pkgSerix, "-", fmt.Sprintf("expected the decoding functions that create a Deserializer, found %d (vacuous)", n))
+	}
+}
+
 func runC03(c *Ctx) {
 	p := loadSerializer(c)
 	if p == nil {
 		return
 	}
 	r := c.R
+	checkBoundsBeforeSuccess(r, p)
+	checkStickyErrorSurfaced(r, p)
 	// (1) endianness
 	count := func(prog *Prog, pkgs []string) (nonLittle []string, nLittle, nRW int, badRW []string) {
 		for _, pkg := range pkgs {
